@@ -52,7 +52,9 @@ def run(ctx):
     for g in range(ngraphs):
         cyclic = rng.random() < 0.25
         files, info, names = gen_graph(rng, cyclic)
-        s = session.ImplSession(files)
+        # every third graph is driven through interpret(src, name, environment) with a caller-owned environment, as embedders do
+        s = session.ImplSession(files, explicit_env=(g % 3 == 2))
+        ctx.count("graphs_explicit_environment" if g % 3 == 2 else "graphs_session_frame")
         history = []
         try:
             s.run("def importer_secret = 'visible'")
@@ -63,7 +65,7 @@ def run(ctx):
                 m = rng.choice(names)
                 form = rng.choice(["plain", "as", "import", "unq", "plain"])
                 pubs = info[m]["public"]
-                before = set(s.it.environment.map.keys())
+                before = set(s.frame().map.keys())
                 if form == "plain":
                     src, expect_new = f"require {m}", {m}
                 elif form == "as":
@@ -104,16 +106,16 @@ def run(ctx):
                     # exactly the requested names, each bound to the module's own value of the requested symbol
                     modenv = s.it.base_environment.modules.get(m)
                     for a_, b_ in import_pairs:
-                        if b_ not in s.it.environment.map:
+                        if b_ not in s.frame().map:
                             ctx.violation("oracle", f"`{src}` did not bind `{b_}`", rp)
-                        elif modenv is not None and a_ in modenv.map and s.it.environment.map[b_] is not modenv.map[a_]:
-                            ctx.violation("oracle", f"`{src}` bound `{b_}` to {s.it.environment.map[b_]}, the module's `{a_}` is {modenv.map[a_]}", rp)
+                        elif modenv is not None and a_ in modenv.map and s.frame().map[b_] is not modenv.map[a_]:
+                            ctx.violation("oracle", f"`{src}` bound `{b_}` to {s.frame().map[b_]}, the module's `{a_}` is {modenv.map[a_]}", rp)
                 if form == "unq" and not set(pubs) <= after:
                     ctx.violation("oracle", f"`{src}` did not bind all public symbols: missing {sorted(set(pubs) - after)}", rp)
                 # the module object exposes exactly the public definitions (and no re-exported modules)
                 if form in ("plain", "as"):
                     objname = m if form == "plain" else alias
-                    obj = s.it.environment.map[objname]
+                    obj = s.frame().map[objname]
                     members = set(obj.value.keys())
                     if members != set(pubs):
                         ctx.violation("oracle", f"module object of `{src}` exposes {sorted(members)}, public definitions are {sorted(pubs)}", rp)
